@@ -109,7 +109,9 @@ _PORT_LOCK = __import__("threading").Lock()
 
 
 class Server:
-    def __init__(self):
+    def __init__(self, stdout="devnull", nofile=None):
+        """stdout: "devnull"; "pipe-unread" = a pipe nobody ever reads; "pipe-closed" = a pipe whose reader goes away
+        once the server is up.  nofile: a soft and hard RLIMIT_NOFILE for the server process."""
         # one server start at a time: the port is probed, the server started, and only a server
         # that is both listening and still alive (it exits when the port was taken) is accepted
         with _PORT_LOCK:
@@ -119,7 +121,9 @@ class Server:
                 s.bind(("127.0.0.1", 0))
                 self.port = s.getsockname()[1]
                 s.close()
-                self.p = subprocess.Popen([SERVER], env=dict(os.environ, PORT=str(self.port)), stdout=subprocess.DEVNULL, stderr=subprocess.DEVNULL)
+                argv = [SERVER] if nofile is None else ["/bin/sh", "-c", "ulimit -n %d; exec \"$0\"" % nofile, SERVER]
+                self.p = subprocess.Popen(argv, env=dict(os.environ, PORT=str(self.port)),
+                                          stdout=subprocess.DEVNULL if stdout == "devnull" else subprocess.PIPE, stderr=subprocess.DEVNULL)
                 ok = False
                 for _ in range(300):
                     if self.p.poll() is not None:
@@ -133,6 +137,9 @@ class Server:
                         last = e
                         time.sleep(0.02)
                 if ok and self.p.poll() is None:
+                    if stdout == "pipe-closed":
+                        # the start-up line was written before the socket was bound; from now on nobody listens
+                        self.p.stdout.close()
                     return
                 try:
                     self.p.kill()
@@ -336,6 +343,9 @@ def main():
         if rp["kind"] == "burst":
             print("a burst is a sample of machine schedules and cannot be replayed exactly; re-run ./check C20 quick")
             sys.exit(0)
+        if rp["kind"] == "sequence" and ("stdout" in rp["case"].get("server", "") or "descriptor" in rp["case"].get("server", "")):
+            print("this case depends on the server's environment (its standard output / descriptor limit); re-run ./check C20 quick")
+            sys.exit(0)
         if rp["kind"] == "sequence":
             errs = run_sequence(rp["case"]["seq"], K)
         else:
@@ -424,9 +434,71 @@ def main():
             srv.stop()
         return [("burst", {"clients": 14, "rounds": rounds}, errs)]
 
-    with ThreadPoolExecutor(2) as ex:
+    def environment_job(which):
+        """the server's own environment: a standard output that is never read or has gone away, and a low descriptor limit"""
+        out = []
+        if which in ("pipe-unread", "pipe-closed"):
+            srv = Server(stdout=which)
+            try:
+                for seq in (["get", "post-small", "post-bad-utf8", "post-hostile"], ["post-small", "post-small", "get"]):
+                    out.append(("sequence", {"seq": seq, "server": "long-lived, stdout " + which}, run_sequence(seq, K, srv)))
+                # a long run of requests on the same server (whatever it writes per request accumulates in the pipe)
+                n = 1600 if tier == "quick" else 6000
+                errs = []
+                cyc = ["post-small", "post-bad-utf8", "get", "post-hostile"]
+                for i in range(n):
+                    e = do_request(srv.port, cyc[i % 4], K[cyc[i % 4]])
+                    if e:
+                        errs.append("request #%d of a run of %d on a server whose stdout is %s: %s" % (i, n, which, e[0]))
+                        break
+                if not srv.alive():
+                    errs.append("the server process has exited")
+                out.append(("sequence", {"seq": ["soak", n], "server": "long-lived, stdout " + which}, errs))
+            finally:
+                srv.stop()
+        else:
+            srv = Server(nofile=64)
+            conns = []
+            try:
+                out.append(("sequence", {"seq": ["get", "post-small"], "server": "descriptor limit 64"}, run_sequence(["get", "post-small"], K, srv)))
+                # 200 idle connections: more than the server can hold open
+                for _ in range(200):
+                    try:
+                        c = socket.socket()
+                        c.settimeout(0.2)
+                        c.connect(("127.0.0.1", srv.port))
+                        conns.append(c)
+                    except OSError:
+                        try:
+                            c.close()
+                        except OSError:
+                            pass
+                time.sleep(2.0)
+                for c in conns:
+                    try:
+                        c.close()
+                    except OSError:
+                        pass
+                conns = []
+                time.sleep(3.0)
+                errs = run_sequence(["get", "post-small", "post-bad-utf8"], K, srv)
+                out.append(("sequence", {"seq": ["200 idle connections", "get", "post-small", "post-bad-utf8"], "server": "descriptor limit 64"}, errs))
+            finally:
+                for c in conns:
+                    try:
+                        c.close()
+                    except OSError:
+                        pass
+                srv.stop()
+        return out
+
+    with ThreadPoolExecutor(5) as ex:
+        futs = [ex.submit(environment_job, w) for w in ("pipe-unread", "pipe-closed", "nofile")]
         for out in ex.map(impatient_job, [0]):
             results.extend(out)
+        for fu in futs:
+            results.extend(fu.result())
+    with ThreadPoolExecutor(1) as ex:
         for out in ex.map(burst_job, [0]):
             results.extend(out)
     # (b) interleavings of client events
@@ -460,7 +532,14 @@ def main():
         for out in ex.map(inter_job, chunks):
             results.extend(out)
     violations = [(k, c, r) for (k, c, r) in results if r]
-    requests = sum((len(c.get("seq", c.get("kinds", []))) + 1) if "clients" not in c else c["clients"] * c["rounds"] for (_, c, _) in results)
+    def nreq(c):
+        if "clients" in c:
+            return c["clients"] * c["rounds"]
+        seq = c.get("seq", c.get("kinds", []))
+        if seq and seq[0] == "soak":
+            return seq[1]
+        return len(seq) + 1
+    requests = sum(nreq(c) for (_, c, _) in results)
     outcomes = set()
     for (k, c, r) in results:
         outcomes.add((k, json.dumps(c.get("seq", c.get("kinds", c.get("clients"))))))
@@ -481,6 +560,7 @@ def main():
             "samples": samples, "evaluations": len(results), "distinct_nontrivial": len(outcomes),
             "rule": "(a) every sequence of up to 2 (thorough 3) requests over 12 request kinds on a fresh server, and every sequence of 3 (thorough 4 over 7 state-relevant kinds) chained on long-lived servers, each followed by a probe GET; "
                     "(b) for 10 pairs (thorough also 3 triples) of request kinds every interleaving of the clients' events connect / send head / send first body half (cut inside a multi-byte character when there is one) / send second half / receive (252 orders for two clients; 34650 for three clients with 4 events), performed deterministically on raw sockets. "
+                    "(c) the server's environment: the same sequences and a run of 1600 (thorough 6000) requests on a server whose standard output is a pipe nobody reads, and one whose reader has gone away; a server limited to 64 descriptors facing 200 idle connections, then ordinary requests. "
                     "Every response is compared with the per-request model (200 + the library's to_svg document, 400, 413, 405, 404, version string). distinct_nontrivial = distinct request sequences / kind tuples",
             "exhaustive": True,
             "scopes": [{"scope": "sequences", "size": nseq, "completed": nseq, "exhaustive": True},
